@@ -206,6 +206,10 @@ func runC08(r *core.Run) {
 		nestSub(r, "nesting/"+cn, core.MustCfg(cn), core.Pick(r, 3, 4), func(s *core.Sub, cv *core.Conv, w []byte) {
 			c08Case(s, cv, w, 2, st2.get(cv))
 		})
+		st5 := &c08StatePool{}
+		corpusSub(r, "structured-corpus/"+cn, core.MustCfg(cn), func(d []byte) bool { return !bytes.ContainsAny(d, "\t\r") && len(bytes.TrimSpace(d)) > 0 }, func(s *core.Sub, cv *core.Conv, w []byte) {
+			c08Case(s, cv, w, 1, st5.get(cv))
+		})
 	}
 }
 
